@@ -75,6 +75,10 @@ func FreeRun()
 // "no-deadlock" violation as everywhere; natively f runs under a watchdog and
 // not returning within a few seconds fails "no-deadlock".
 func NoBlock(f func())
+
+// Ghost runs f, a harness step on ghost state shared between threads (one
+// indivisible step in the engine; natively under the free-run mutex).
+func Ghost(f func())
 func Symbolic() bool
 func Concrete(v int) int
 func ConcreteU64(v uint64) uint64
